@@ -293,6 +293,7 @@ void hor_trav_visit(int t, int id)
 }
 
 void hor_trav_end(int t) { ht_[t].ret = usim_seq(); }
+void hor_trav_set_interval(int t, uint64_t inv, uint64_t ret) { ht_[t].inv = inv; ht_[t].ret = ret; }
 
 int hor_is_present(int id) { return hn[id].known && hn[id].add_ret && !hn[id].rem_ret; }
 
